@@ -33,7 +33,7 @@ func init() {
 		Shards: func(tier string) int { return map[string]int{"quick": 12, "thorough": 16}[tier] },
 		Run: func(c *Ctx) {
 			c.P.Rule = "random families"
-			c.Rapid("la", c.Pick(3000, 50000), func(t *rapid.T) {
+			c.Rapid("la", c.Pick(8000, 80000), func(t *rapid.T) {
 				gc := DrawGrammar(t, fams)
 				if msg := evalC03(c, gc); msg != "" {
 					c.Fail(gc, msg)
